@@ -1151,6 +1151,7 @@ WORKLOADS: dict[str, Callable[[], Workflow]] = {
     "poll2": lambda: wl_poll(2),
     "transient_always": lambda: wl_transient(13),
     "transient2": lambda: wl_transient(2),
+    "transient9": lambda: wl_transient(9, with_ctx=True),  # progress saved with each retry; fails transiently 9 times and succeeds on the last attempt the documented budget allows
     "transient2ctx": lambda: wl_transient(2, with_ctx=True),
     "selfloop2": lambda: wl_selfloop(2),
     "backjump1": lambda: wl_backjump(1),
